@@ -85,7 +85,7 @@ def run_merge(ctx):
     inv = "MergeCanonical MergeHosts TsCanonical"
     if th:
         mc = ctx.tlc("RowMergeMC", "RowMerge_mc_big.cfg", timeout=3000, coverage=True,
-                     constants={"MaxLeaves": 4, "shapes": 23, "DEN": 6, "invariants": inv})
+                     constants={"MaxLeaves": 4, "shapes": 14, "DEN": 6, "invariants": inv})
         ctx.require_model_ok(mc, "RowMerge invariants")
     beh = ctx.tlc("RowMergeMC", "RowMerge_beh_big.cfg" if th else "RowMerge_beh.cfg", timeout=3000 if th else 900,
                   name="MC + merge behaviours (multiset, order, tree)",
